@@ -2,7 +2,8 @@
 """C18 - identical streams across build profiles and feature sets (E6, configuration matrix).
 
 Builds harness/c18_replay in the complete matrix {opt-level 0, 3} x {overflow-checks +
-debug-assertions on, off} x {serde feature on, off}, replays the same enumerated corpus in each
+debug-assertions on, off} x {optional features off, on: serde of the three crates that have
+it and rand_jitter's log feature with a logger that formats every record}, replays the same enumerated corpus in each
 and compares the per-item digests. exit 0 held / 1 violation / 2 machinery failure."""
 import json, os, subprocess, sys, time, shutil
 
@@ -137,7 +138,7 @@ def main():
         'coverage': {
             'evaluations': n * len(names),
             'distinct_nontrivial': len(distinct),
-            'rule': 'items = every history up to the tier depth over {next_u32,next_u64,fill_bytes(0|3|5|9|17|block-3),jump,long_jump} from 4 seeds x 2 buffer offsets for the 19 seedable generator types, all byte-probe and pair-of-bits seeds, u64 arguments (alphabet + consecutive ranges), long runs, value-directed seeds whose jump()/long_jump() image has a special word pattern, and JitterRng histories / single deviations at every reading / runs of 1..4097 consecutive stuck measurements / bursts of extreme probe deltas / test_timer patterns on scripted timers; each item is replayed in all 8 configurations; distinct_nontrivial = distinct item digests in the first configuration',
+            'rule': 'items = every history up to the tier depth over {next_u32,next_u64,fill_bytes(0|3|5|9|17|block-3),jump,long_jump} from 4 seeds x 2 buffer offsets for the 19 seedable generator types, all byte-probe and pair-of-bits seeds, u64 arguments (alphabet + consecutive ranges), long runs (2^16 blocks of HC-128, 2^18 blocks of ISAAC / ISAAC-64 from one object, a JitterRng life of 6000 collections with a clone), value-directed seeds that have, or whose successor / jump() / long_jump() image has, a special word pattern (from the reference matrices), and JitterRng histories / single deviations (17 kinds) at every reading / runs of 1..4097 consecutive stuck measurements / bursts of extreme probe deltas / test_timer patterns on scripted timers; each item is replayed in all 8 configurations; distinct_nontrivial = distinct item digests in the first configuration',
             'samples': [ref[0], ref[n // 2], ref[-1]],
             'configurations': names,
             'items_per_configuration': n,
